@@ -203,6 +203,8 @@ var eqMsgs = []eqMsg{
 	{"error-details", msgErr},
 	{"error-details+metadata", &gt.Message{Code: 3, Trailers: map[string][]byte{"t1": []byte("w1")}, ErrorDetails: []*anypb.Any{mustAny(&gt.Message{Payload: []byte("nested")})}}},
 	{"error-unknown-code", &gt.Message{Code: 99}},
+	{"no-response-typed-nil", &gt.Message{Payload: []byte("p"), DelayMillis: noRespTyped}},
+	{"no-response-bare-nil", &gt.Message{Payload: []byte("p"), DelayMillis: noRespBare}},
 }
 
 func init() {
